@@ -527,7 +527,7 @@ RULES.setdefault("C11", []).append(Rule("C11.R6", "XML bundle writer declares th
       decides="Literal('', xsd:string) is stored as '' exactly like a direct assignment")
 def c05_r7(ctx: Ctx, rule):
     res = RuleResult()
-    for q, names in ((M + ".parse_xsd_types", None), (M + ".ProvRecord._auto_literal_conversion", {"value"})):
+    for q, names in ((M + ".parse_xsd_types", None), (M + ".ProvRecord." + ctx.literal_converter(), {ctx.fn(M + ".ProvRecord." + ctx.literal_converter()).params[1]})):
         fi = ctx.fn(q)
         watch = set(names) if names else {fi.params[0]}
         bad = truthiness_tests(fi, watch)
@@ -835,6 +835,157 @@ RULES.setdefault("C11", []).append(Rule("C11.R17", "a language-tagged literal's 
                                         "foreign JSON forms load completely and re-serialise to the same document"))
 
 
+# ------------------------------------------------------------------------------------------ C02.R18: character substitution in the XML codec spares every XML character
+XML_CHAR_RANGES = [(0x9, 0xA), (0xD, 0xD), (0x20, 0xD7FF), (0xE000, 0xFFFD), (0x10000, 0x10FFFF)]  # XML 1.0, production [2] Char
+
+
+def _class_ranges(pattern: str):
+    """(negated?, [(lo, hi)..]) of a pattern that is one character class (possibly repeated: `[..]+`); None for any other shape."""
+    import re._parser as sre
+
+    try:
+        tree = sre.parse(pattern)
+    except Exception:
+        return None
+    items = list(tree)
+    while len(items) == 1 and str(items[0][0]) in ("SUBPATTERN", "MAX_REPEAT", "MIN_REPEAT"):
+        items = list(items[0][1][3]) if str(items[0][0]) == "SUBPATTERN" else list(items[0][1][2])
+    if len(items) != 1 or str(items[0][0]) not in ("IN", "LITERAL", "NOT_LITERAL"):
+        return None
+    op, arg = items[0]
+    if str(op) == "LITERAL":
+        return False, [(arg, arg)]
+    if str(op) == "NOT_LITERAL":
+        return True, [(arg, arg)]
+    neg, ranges = False, []
+    for o, a in arg:
+        if str(o) == "NEGATE":
+            neg = True
+        elif str(o) == "LITERAL":
+            ranges.append((a, a))
+        elif str(o) == "RANGE":
+            ranges.append((a[0], a[1]))
+        else:
+            return None
+    return neg, ranges
+
+
+def _substituted_xml_chars(neg, ranges):
+    """XML characters a substitution with this class rewrites: first offending code point or None."""
+    def inside(c):
+        return any(lo <= c <= hi for lo, hi in ranges)
+    for lo, hi in XML_CHAR_RANGES:
+        # it is enough to look at range ends and at the borders of the class's own ranges
+        probes = {lo, hi} | {b for a, z in ranges for b in (a - 1, a, z, z + 1) if lo <= b <= hi}
+        for c in sorted(probes):
+            hit = (not inside(c)) if neg else inside(c)
+            if hit:
+                return c
+    return None
+
+
+def xml_substitution_rule(ctx: Ctx, rule):
+    """PROV-XML carries every XML 1.0 character of a value as it is (lxml escapes markup).  A regular-expression substitution in the
+    XML codec may remove what XML cannot carry, but the characters it rewrites - read off its character class with the stdlib regex
+    parser - must not include any XML Char: #x9 | #xA | #xD | [#x20-#xD7FF] | [#xE000-#xFFFD] | [#x10000-#x10FFFF]."""
+    res = RuleResult()
+    probe = _class_ranges("[^\\x09\\x0a\\x0d\\x20-\\ud7ff\\ue000-\\ufffd]")
+    if probe is None or not probe[0] or _substituted_xml_chars(*probe) != 0x10000 or _substituted_xml_chars(True, XML_CHAR_RANGES) is not None:
+        raise AnalysisError("regex character-class reader self-check failed")
+    res.ob("character-class reader: the built-in example (the widely copied class that stops at U+FFFD) is read as rewriting U+10000; the full Char production as rewriting nothing")
+    for q, fi in ctx.p.functions.items():
+        if fi.module != XM or isinstance(fi.node, ast.Lambda):
+            continue
+        for c in calls_in(fi.node):
+            if not (isinstance(c.func, ast.Attribute) and c.func.attr in ("sub", "subn")):
+                continue
+            pat = None
+            recv = c.func.value
+            r = ctx.p.resolve_dotted(fi.module, recv) if dotted(recv) else None
+            if r and r[0] in ("ext", "module") and str(r[1]) == "re" and c.args:
+                pat = c.args[0]
+            elif isinstance(recv, ast.Name):
+                rr = ctx.p.resolve_name(fi.module, recv.id)
+                if rr and rr[0] == "var":
+                    unit = ctx.p.units[rr[1]]
+                    for st in unit.tree.body:
+                        if isinstance(st, ast.Assign) and any(isinstance(t, ast.Name) and t.id == rr[2] for t in st.targets) and isinstance(st.value, ast.Call) and call_name(st.value) == "compile" and st.value.args:
+                            pat = st.value.args[0]
+            if pat is None:
+                continue
+            try:
+                pv = ctx.eval_in(q, pat)
+            except AnalysisError:
+                pv = None
+            if not isinstance(pv, str):
+                res.ob("%s: substitution %s: pattern does not fold to a string" % (short(q) if q.count(".") > 2 else q, norm(c)[:50]), nontrivial=False)
+                continue
+            cr = _class_ranges(pv)
+            if cr is None:
+                res.ob("%s: substitution with pattern %r is not a single character class: not judged" % (short(q) if q.count(".") > 2 else q, pv[:40]), nontrivial=False)
+                continue
+            bad = _substituted_xml_chars(*cr)
+            res.ob("%s: substitution with class %r rewrites no XML 1.0 character: %s" % (short(q) if q.count(".") > 2 else q, pv[:50], bad is None))
+            if bad is not None:
+                res.fail(rule.id, "xml-char-rewritten::U+%04X" % bad, ctx.loc(q, c),
+                         "%s rewrites characters matched by %r, which include the legal XML character U+%04X" % (short(q) if q.count(".") > 2 else q, pv[:60], bad),
+                         "a string value holding U+%04X is written as another character and reads back changed, silently" % bad)
+    return res
+
+
+RULES.setdefault("C02", []).append(Rule("C02.R18", "a character substitution in the XML codec spares every XML 1.0 character (class read with the regex parser)", 0, xml_substitution_rule, "F-TAINT",
+                                        "strings of XML characters, astral ones included, survive the XML round trip unchanged"))
+RULES.setdefault("C10", []).append(Rule("C10.R19", "a character substitution in the XML writer spares every XML 1.0 character (shared with C02.R18)", 0, xml_substitution_rule, "F-TAINT",
+                                        "an independent reader recovers every character of a value"))
+
+
+# ------------------------------------------------------------------------------------------ C11.R19: names of a child element resolve in the child's scope
+def child_scope_rule(ctx: Ctx, rule):
+    """XML namespace declarations are scoped per element: a child element may declare or re-declare a prefix (lxml itself writes
+    `<ns0:size xmlns:ns0="..">` for a name whose namespace is not in the parent's map).  Inside a loop over the children of an
+    element, the parent's `.nsmap` (read directly or through a local taken before the loop) is therefore never what a child's
+    names are resolved against."""
+    res = RuleResult()
+    n_loops = 0
+    for q, fi in ctx.p.functions.items():
+        if fi.module != XM or isinstance(fi.node, ast.Lambda):
+            continue
+        for lp in walk_function(fi.node):
+            if not (isinstance(lp, ast.For) and isinstance(lp.iter, ast.Name) and isinstance(lp.target, ast.Name)):
+                continue
+            parent = lp.iter.id
+            # only loops over an lxml element: the body reads element attributes of the loop variable
+            if not any(isinstance(x, ast.Attribute) and isinstance(x.value, ast.Name) and x.value.id == lp.target.id and x.attr in ("text", "attrib", "prefix", "tag", "nsmap") for b in lp.body for x in ast.walk(b)) and \
+               not any(isinstance(x, ast.Call) and any(isinstance(a, ast.Name) and a.id == lp.target.id for a in x.args) for b in lp.body for x in ast.walk(b)):
+                continue
+            n_loops += 1
+            aliases = {parent + ".nsmap"}
+            for a in walk_function(fi.node):
+                if isinstance(a, ast.Assign) and isinstance(a.value, ast.Attribute) and a.value.attr == "nsmap" and norm(a.value.value) == parent and not any(x is a for b in lp.body for x in ast.walk(b)):
+                    aliases |= {t.id for t in a.targets if isinstance(t, ast.Name)}
+            uses = []
+            for b in lp.body:
+                for x in ast.walk(b):
+                    if isinstance(x, ast.Name) and x.id in aliases and isinstance(x.ctx, ast.Load):
+                        uses.append(x)
+                    elif isinstance(x, ast.Attribute) and x.attr == "nsmap" and norm(x.value) == parent:
+                        uses.append(x)
+            res.ob("%s: for %s in %s: the parent's namespace map (%s) is used inside the loop: %s" % (short(q) if q.count(".") > 2 else q, lp.target.id, parent, sorted(aliases), bool(uses)))
+            for u in uses[:1]:
+                res.fail(rule.id, "parent-scope-nsmap::%s" % q, ctx.loc(q, u),
+                         "%s resolves names of the child elements of `%s` against %s, the declarations in scope at the parent" % (short(q) if q.count(".") > 2 else q, parent, norm(u)),
+                         "<ex:size xmlns:ex=\"http://other/\"> inside a record (or the <ns0:size xmlns:ns0=..> lxml writes for a bundle's default namespace): the name resolves to the parent's ex (or raises)")
+    if n_loops < 2:
+        raise AnalysisError("the loops over child elements of the XML reader were not found (%d)" % n_loops)
+    return res
+
+
+RULES.setdefault("C11", []).append(Rule("C11.R19", "names found in a child element are resolved against the child's own in-scope declarations", 2, child_scope_rule, "F-PATH",
+                                        "foreign XML that declares a prefix on the attribute element itself loads with the right URIs"))
+RULES.setdefault("C02", []).append(Rule("C02.R17", "names found in a child element are resolved in the child's scope (shared with C11.R19)", 2, child_scope_rule, "F-PATH",
+                                        "attribute names written under a generated prefix (a bundle's default namespace) read back with their URI"))
+
+
 # ------------------------------------------------------------------------------------------ C11.R18: several entities in one membership
 def _is_prov_entity(ctx, q, e):
     try:
@@ -863,7 +1014,7 @@ def _single_value_guard_has_bypass(ctx, res):
     other than the attribute itself (today: `not is_collection`, i.e. prov:collection among the incoming names)."""
     aq = ctx.p.lookup_method(M + ".ProvRecord", "add_attributes")
     from ..inline import inlined_function
-    f = inlined_function(ctx, aq, exclude=frozenset({"_auto_literal_conversion"}))
+    f = inlined_function(ctx, aq, exclude=frozenset({ctx.literal_converter()}))
     params = {a.arg for a in f.node.args.args}
     guards = []
     for n in walk_function(f.node):
